@@ -33,6 +33,26 @@ def ident(a: T) -> T: return a
 def first(xs: list[T]) -> T: return xs[0]
 def pair(a: int, b: str) -> tuple[int, str]: return (a, b)
 def opt(a: int) -> int | None: return a if a else None
+class Mid:
+    def __init__(self, v: object) -> None:
+        self.v = v
+class Top:
+    def __init__(self, b: Mid) -> None:
+        self.b = b
+        self.d = {"k": b}
+class LeafO:
+    v: Optional[int] = None
+class MidO:
+    v: Optional[int] = None
+    leaf: LeafO
+    def __init__(self, v: Optional[int] = None) -> None:
+        self.v = v
+        self.leaf = LeafO()
+        self.leaf.v = v
+class TopO:
+    b: MidO
+    def __init__(self, b: MidO) -> None:
+        self.b = b
 # unannotated helpers whose return value is inferred from their bodies; each of them can fall off its end
 def hg1(cc):
     if cc:
@@ -120,6 +140,19 @@ S1 = [
     "v = hg1({e})",
     "v = (hg2(({e},) if c() else ()), hg3(c()))",
     "v = hg4(x)\n    w = hg5({e})\n    use(w)",
+    # star targets whose source contains an unpacking itself, with several names before and after the star
+    "p, q, *r, s, u = (1.5, *x, {e}, b'y')\n    v = (p, q, r, s, u)",
+    "[p, *r, s, u] = [*x, {e}, None, 'z']\n    v = (p, r, s, u)",
+    "p, *r, s = (*x, *x, {e})\n    v = (p, r, s)",
+    # narrowing of an attribute / subscript chain, then rebinding of a prefix of the chain, then a new read
+    "t = Top(Mid({e}))\n    v = 0\n    if t.b.v is not None:\n        t.b = Mid(None)\n        v = t.b.v\n    use(v)",
+    "t = Top(Mid({e}))\n    v = 0\n    if isinstance(t.b.v, int):\n        if c():\n            t.b = Mid('s')\n        v = t.b.v",
+    "t = Top(Mid({e}))\n    v = 0\n    if t.d['k'].v is not None:\n        t.d = {{'k': Mid(None)}}\n        v = t.d['k'].v\n    use(v)",
+    "t = Top(Mid({e}))\n    v = 0\n    if t.b.v is not None:\n        t = Top(Mid(None))\n        v = t.b.v",
+    # the same with declared Optional attributes (the narrowing is visible as int) on a chain of two and of three steps
+    "t = TopO(MidO(1 if c() else None))\n    w = {e}\n    v = 0\n    if t.b.v is not None:\n        t.b = MidO(None)\n        v = t.b.v\n    use(v)",
+    "t = TopO(MidO(1 if c() else None))\n    w = {e}\n    v = 0\n    if t.b.leaf.v is not None:\n        t.b.leaf = LeafO()\n        v = t.b.leaf.v\n    use(v)",
+    "t = TopO(MidO(1 if c() else None))\n    w = {e}\n    v = 0\n    if t.b.leaf.v is not None:\n        t.b = MidO(None)\n        v = t.b.leaf.v\n    use(v)",
 ]
 S2 = [
     "w = v\n    use(w)",
